@@ -86,6 +86,16 @@ theorem observations_perm_invariant (q : Req) (draw : Rule → Nat) (allowLog : 
     runOps allowLog c (fromRoutesRule R q draw) ops = runOps allowLog c (fromRoutesRule R' q draw) ops := by
   rw [action_perm_invariant q draw h hn]
 
+/-- Bridge to C01 (insertion order / rebuild): for ANY router representation and match function, if
+two router states return the same *set* of rules for a request — which is what C01 proves of two
+routers built from the same rules in different orders (both return exactly the satisfying rules, once
+each) — then the actions computed from the two match results are equal. -/
+theorem router_order_invariant_of_match_perm {State : Type} (matchRequest : State → List Rule)
+    (s s' : State) (q : Req) (draw : Rule → Nat)
+    (hC01 : (matchRequest s).Perm (matchRequest s')) (hn : NodupIds (matchRequest s)) :
+    fromRoutesRule (matchRequest s) q draw = fromRoutesRule (matchRequest s') q draw :=
+  action_perm_invariant q draw hC01 hn
+
 /-! ### Non-vacuity, and necessity of the distinct-ids hypothesis -/
 
 private def mk (id : RuleId) (rank : Nat) (status : Option Nat) : Rule :=
